@@ -82,6 +82,13 @@ class Adjoint(object):
 
     def pull(self, J, i, d):
         """sum_m g(i,m) * dC_m/dvar  for segment i, coordinate d"""
+        key = (id(J), E.const(i).key(), d)
+        c = self.__dict__.setdefault('_pull', {})
+        if key not in c:
+            c[key] = self._pull_uncached(J, i, d)
+        return c[key]
+
+    def _pull_uncached(self, J, i, d):
         return esum([self.g(i, m, d) * self.HJ.bind(J[m], self.P, self.X, self.iv(i), i, d) for m in range(self.nc)])
 
     # pull-backs of the upstream coefficient gradient through one segment's Hermite closure
@@ -98,7 +105,11 @@ class Adjoint(object):
 
     # ---- optimality rows of block k (interior knot k+1) and their partial derivatives
     def rowjac(self, k, d):
-        return RowJac(self, k, d)
+        key = (E.const(k).key(), d)
+        c = self.__dict__.setdefault('_rj', {})
+        if key not in c:
+            c[key] = RowJac(self, k, d)
+        return c[key]
 
 
 class RowJac(object):
